@@ -1054,6 +1054,9 @@ CORPUS_U = {
                                            _f({"t": "ref", "full": "r.C", "major": 1, "minor": 0}, "c")]),
                 _t(["r", "q"], "T", True, [_f({"t": "ref", "full": "r.p.B", "major": 1, "minor": 0}, "b"),
                                            _f({"t": "varr", "elem": {"t": "utf8"}, "cap": 256, "incl": True}, "s")]),
+                # a type with very many members: whatever is embedded per type (e.g. the serialized model in Python modules) is
+                # far larger than for the small generated types, and size-dependent paths of the generator are taken
+                _t(["r"], "Wide", False, [_f({"t": "varr", "elem": {"t": "uint", "bits": 8 + (i % 3) * 8, "cast": "saturated"}, "cap": 3 + i % 5, "incl": True}, f"m{i}") for i in range(96)], extra=8),
             ],
         }
     ]
@@ -1095,6 +1098,7 @@ def corpus_case() -> dict:
     for hs in (1, 12345):  # hash seeds 0 / 1 order the sibling namespaces {p, q} differently (CPython 3.12 str hash)
         pairs.append([copy.deepcopy(a0), dict(copy.deepcopy(a0), hs=hs)])
     pairs.append([copy.deepcopy(a0), dict(copy.deepcopy(a0), hs=1, t=a0["t"] + 86401.0, inloc=1, cwd="in")])
+    pairs.append([copy.deepcopy(a0), dict(copy.deepcopy(a0), t=a0["t"] + 2.0)])  # nothing but the clock (seconds apart)
     return {"u": CORPUS_U, "root": 0, "flavour": "corpus",
             "targets": {t: {"opts": {}, "pairs": copy.deepcopy(pairs)} for t in TARGETS},
             "control": {"target": "py", "env": copy.deepcopy(a0)}}
